@@ -102,6 +102,11 @@ EXPLANATION = ("Model: Model/TrainScreen.v (id-level rows of a screen built by t
                "single_effect_lookup.update(m) = Train.lk_update (the lookup kept sorted by key).  Not translated: the __init__ methods "
                "(that the lists start empty and the dictionaries are defaultdict(list)), train_model.main and Screen.subset_observed "
                "(C14 links the latter).")
+# ---- source-translation links of the command-line wrappers (Model/Cli.v, Generated/SrcCli.v) ----
+THEOREMS.update({
+    'C04_model_is_source_cli_train_model': 'the translation of the whole function train_model.main regenerated on this run equals, for every record L of library functions and all parsed arguments, Cli.cli_train_model: the model constructed with EXPERIMENT_SPACE = ExperimentSpace.from_screen(loaded screen) is handed add_observations(screen.subset_observed()) - the observed subset only, no call when it is None - then sampling.sample(model, ThetaHolder(--n-samples), seed, n_chains, chain_index, n_burnin, thin, progress) and the result is saved',
+})
+EXPLANATION += ("  CLI wrapper: train_model.main is re-translated as a WHOLE function on every run (Generated/SrcCli.v) and proved equal to Model/Cli.v.  The link trusts the translator harness/py2gal.py (for these links extended by cfg typed_effects, kwcalls keys `module.function`, state_calls assigned to a tuple), the representation of Model/Cli.v (parsed arguments = a record of the plain argparse results, get_args() not translated = the primitive `get_args()` yielding that record; a main() denotes the list of (path, content) files it writes; `L` = ANY record of library functions over abstract types) and EXACTLY these primitives of harness/src_functions.py, each one field read / one library or constructor call standing for the function of that name (whose own link, where it exists, is the one of its property): CLI_TRAIN_MODEL: the fields of `args` read as the record's projections (a store to one is refused); ignored: log_config.configure_logging(args), logger.info/warning; args.model_params read / updated as one variable (attr_vars), model_params[EXPERIMENT_SPACE] = e (tm_set_space), args.model_cls(**params), Screen.load_h5(p), ExperimentSpace.from_screen(s), ThetaHolder(n_thetas=n), s.subset_observed() (an Optional subset), typed effect model.add_observations(d) with d a SUBSET (an Optional is unwrapped under the `is not None` test; a Screen is refused), the keyword call sampling.sample(...) with its defaults, typed effect r.save_h5(p). ")
 
 SDC = "sdc"
 INT = "interaction"
